@@ -279,6 +279,25 @@ class Renderer:
         for d in rec.rw:
             self.rw.setdefault(d[0], []).append(d[1:])
         self.synth_loops = 0
+        self.r19_flags = {}      # span start of `let [mut] L = V.into_iter();` -> (L, V), where a blind retain2 closure drains L
+        self.r19_of = {}         # L -> ghost name
+        for x in walk_tree(fn.node["tree"]):
+            if x["k"] == "MethodCall" and x["method"] == "retain2" and len(x["args"]) == 1:
+                c = self.find(x, x["args"][0])
+                if c["k"] != "Closure":
+                    continue
+                mm = re.match(r"^(\w+)\.next\(\)\.unwrap_or\((true|false)\)$", compact(self.src.t(*c["body"])))
+                if not mm or [compact(i["text"]) for i in c["inputs"]] != ["_", "_"]:
+                    continue
+                L = mm.group(1)
+                # the last binding of L before the call must be exactly `V.into_iter()` of a local V
+                cands = [y for y in walk_tree(fn.node["tree"]) if y["k"] == "Local" and y["e"] <= x["s"]
+                         and re.sub(r"\b(mut)\b", "", y.get("pat_text", "")).strip() == L]
+                if cands and "init" in cands[-1]:
+                    mi = re.match(r"^(\w+)\.into_iter\(\)$", compact(self.src.t(*cands[-1]["init"])))
+                    if mi:
+                        self.r19_flags[cands[-1]["s"]] = (L, mi.group(1))
+                        self.r19_of[L] = "__r19_" + L
         self.plain = getattr(ctx, "plain", False)   # plain Rust (rewrite round trip): no Verus-only syntax, no stub paths
         self.moved_generics, self.moved_where = [], ""
         if fn.impl is not None and "trait" in fn.impl and fn.impl.get("generics_text"):
@@ -436,6 +455,11 @@ class Renderer:
         h, self.hoist = self.hoist, saved
         body = "".join(h) + body
         pre, post = "", ""
+        if not self.plain:
+            for x in n["c"]:
+                if x["k"] == "Local" and x["s"] in self.r19_flags:
+                    L, V = self.r19_flags[x["s"]]
+                    pre += "let ghost %s = %s@;\n" % (self.r19_of[L], V)    # the answers the blind closure is going to drain (R19)
         # innermost statement containing the call gets the anchor
         for x in walk_tree(n):
             if x["k"] in ("MethodCall", "Call"):
@@ -731,7 +755,11 @@ class Renderer:
             c = args[0]
             pats = [compact(i["text"]) for i in c["inputs"]]
             body = compact(self.t(*c["body"]))
-            if pats == ["_", "_"] and re.match(r"^\w+\.next\(\)\.unwrap_or\((true|false)\)$", body):
+            mm = re.match(r"^(\w+)\.next\(\)\.unwrap_or\((true|false)\)$", body)
+            if pats == ["_", "_"] and mm and mm.group(1) in self.r19_of and mm.group(2) == "true":
+                self.log.append("R19 retain2(closure ignoring the entries, draining the answers recorded in a Vec) -> __retain2_flags(Ghost(answers))")
+                return "%s.__retain2_flags(Ghost(%s))" % (self.render(recv), self.r19_of[mm.group(1)])
+            if pats == ["_", "_"] and mm:
                 self.log.append("R19 retain2(closure ignoring the entries, draining recorded answers) -> __retain2_blind()")
                 return "%s.__retain2_blind()" % self.render(recv)
         # R12: size_hint of a generic iterator
